@@ -10,6 +10,7 @@ import (
 	"runtime/debug"
 	"sort"
 	"strconv"
+	"strings"
 
 	"cvcheck/internal/core"
 	"cvcheck/internal/report"
@@ -99,6 +100,10 @@ func main() {
 		}
 		if *dump == "external" {
 			rules.DumpExternal(p)
+			return
+		}
+		if strings.HasPrefix(*dump, "calls=") {
+			rules.DumpCalls(p, strings.TrimPrefix(*dump, "calls="))
 			return
 		}
 		rules.Dump(p, *dump)
